@@ -159,15 +159,6 @@ example : (exClient.readAt 0 none 16).rest.fuel = 7 := by decide
 def endL (cfg : Cfg) (c : Script) : Nat := max (front cfg c).T c.finT
 def endR (cfg : Cfg) (c u : Script) : Nat := max (front cfg c).T u.finT
 
-theorem relayPhase_eq (cfg : Cfg) (c u : Script) (h : (front cfg c).kind = .relay) :
-    conn cfg c u = relayPhase cfg (front cfg c) u := by
-  unfold conn; simp [h]
-
-theorem clean_of_eof (cfg : Cfg) (c : Script) (h : c.fin = .eof) : (front cfg c).st.poisoned = false := by
-  cases hp : (front cfg c).st.poisoned with
-  | false => rfl
-  | true => have := (poison_only_after_client_reset cfg c hp).1; simp [h] at this
-
 /-- **Headline (client → upstream).** For every client script (payload, segmentation, timing
 relative to the windows) and every upstream script: if the client ends its stream with FIN and the
 relay is not ended from the upstream side first (the upstream is still open when the client
